@@ -51,6 +51,12 @@ pub fn json_bytes(v: &Value) -> Vec<u8> {
 // trees  (iterative: trees can be deep)
 
 pub fn tree_json(a: &Allocator, root: NodePtr) -> Value {
+    norm_tree(tree_json_nested(a, root))
+}
+
+/// nested form regardless of depth (do not write this to a trace unchecked: JSON readers
+/// on both sides limit nesting; `Out::emit` flattens deep trees automatically)
+pub fn tree_json_nested(a: &Allocator, root: NodePtr) -> Value {
     enum Op {
         Visit(NodePtr),
         Build,
@@ -80,6 +86,21 @@ pub fn tree_json(a: &Allocator, root: NodePtr) -> Value {
 /// Build a tree in the allocator with `new_atom` for every atom (each JSON node is
 /// allocated once; no sharing).
 pub fn json_tree(a: &mut Allocator, v: &Value) -> Result<NodePtr, EvalErr> {
+    if let Some(tab) = v.get("t").and_then(|t| t.as_array()) {
+        // flat form: {"t":[node,..]}, node = {"a":[bytes]} | {"p":[i,j]} (1-based, earlier entries), root last
+        let mut nodes: Vec<NodePtr> = Vec::with_capacity(tab.len());
+        for n in tab {
+            if let Some(b) = n.get("a") {
+                nodes.push(a.new_atom(&json_bytes(b))?);
+            } else {
+                let p = n["p"].as_array().expect("flat pair");
+                let f = nodes[p[0].as_u64().unwrap() as usize - 1];
+                let r = nodes[p[1].as_u64().unwrap() as usize - 1];
+                nodes.push(a.new_pair(f, r)?);
+            }
+        }
+        return Ok(*nodes.last().expect("empty flat tree"));
+    }
     enum Op<'x> {
         Visit(&'x Value),
         Build,
@@ -105,6 +126,119 @@ pub fn json_tree(a: &mut Allocator, v: &Value) -> Result<NodePtr, EvalErr> {
         }
     }
     Ok(vals.pop().unwrap())
+}
+
+/// nesting depth of a nested-form tree (iterative)
+pub fn tree_depth(v: &Value) -> usize {
+    let mut m = 0;
+    let mut st = vec![(v, 1usize)];
+    while let Some((x, d)) = st.pop() {
+        m = m.max(d);
+        if x.get("a").is_none() && x.get("f").is_some() {
+            st.push((&x["f"], d + 1));
+            st.push((&x["r"], d + 1));
+        }
+    }
+    m
+}
+
+pub const MAX_NESTED_DEPTH: usize = 48;
+
+/// nested -> flat form {"t":[..]} (no sharing: one entry per occurrence), iterative
+pub fn flatten_tree(v: &Value) -> Value {
+    enum Op<'x> {
+        Visit(&'x Value),
+        Build,
+    }
+    let mut ops = vec![Op::Visit(v)];
+    let mut tab: Vec<Value> = Vec::new();
+    let mut idx: Vec<usize> = Vec::new();
+    while let Some(op) = ops.pop() {
+        match op {
+            Op::Visit(n) => {
+                if let Some(b) = n.get("a") {
+                    let mut e = json!({"a": b.clone()});
+                    if let Some(k) = n.get("n") {
+                        e["n"] = k.clone();
+                    }
+                    tab.push(e);
+                    idx.push(tab.len());
+                } else {
+                    ops.push(Op::Build);
+                    ops.push(Op::Visit(&n["r"]));
+                    ops.push(Op::Visit(&n["f"]));
+                }
+            }
+            Op::Build => {
+                let r = idx.pop().unwrap();
+                let f = idx.pop().unwrap();
+                tab.push(json!({"p": [f, r]}));
+                idx.push(tab.len());
+            }
+        }
+    }
+    json!({"t": tab})
+}
+
+/// flat -> nested (iterative); nested input is returned unchanged
+pub fn unflatten_tree(v: &Value) -> Value {
+    if let Some(tab) = v.get("t").and_then(|t| t.as_array()) {
+        let mut nodes: Vec<Value> = Vec::with_capacity(tab.len());
+        for n in tab {
+            if n.get("a").is_some() {
+                nodes.push(n.clone());
+            } else {
+                let p = n["p"].as_array().unwrap();
+                let f = nodes[p[0].as_u64().unwrap() as usize - 1].clone();
+                let r = nodes[p[1].as_u64().unwrap() as usize - 1].clone();
+                nodes.push(json!({"f": f, "r": r}));
+            }
+        }
+        return nodes.pop().unwrap();
+    }
+    v.clone()
+}
+
+fn looks_like_tree(v: &Value) -> bool {
+    v.is_object() && (v.get("a").is_some() || (v.get("f").is_some() && v.get("r").is_some()))
+}
+
+/// a tree in the form that is safe to write: nested when shallow, flat when deep
+pub fn norm_tree(v: Value) -> Value {
+    if looks_like_tree(&v) && tree_depth(&v) > MAX_NESTED_DEPTH {
+        flatten_tree(&v)
+    } else {
+        v
+    }
+}
+
+/// flatten every deep tree found in the fields of an event (one level of arrays/objects deep)
+pub fn norm_event(v: &mut Value) {
+    fn fix(x: &mut Value, level: usize) {
+        if looks_like_tree(x) {
+            if tree_depth(x) > MAX_NESTED_DEPTH {
+                *x = flatten_tree(x);
+            }
+            return;
+        }
+        if level >= 3 {
+            return;
+        }
+        match x {
+            Value::Object(m) => {
+                for (_, y) in m.iter_mut() {
+                    fix(y, level + 1);
+                }
+            }
+            Value::Array(a) => {
+                for y in a.iter_mut() {
+                    fix(y, level + 1);
+                }
+            }
+            _ => {}
+        }
+    }
+    fix(v, 0);
 }
 
 pub fn tree_size(v: &Value) -> usize {
@@ -267,7 +401,10 @@ impl Out {
         Out { w: std::io::BufWriter::new(f), lines: 0 }
     }
     pub fn emit(&mut self, v: &Value) {
-        serde_json::to_writer(&mut self.w, v).unwrap();
+        // deep trees are written in the flat form (JSON readers limit nesting depth)
+        let mut v = v.clone();
+        norm_event(&mut v);
+        serde_json::to_writer(&mut self.w, &v).unwrap();
         self.w.write_all(b"\n").unwrap();
         self.lines += 1;
     }
